@@ -39,6 +39,10 @@ pub trait Crdt {
     fn persist_op(_op: &Self::Op) -> Option<(Result<String, String>, Option<Self::Op>)> {
         None
     }
+    /// the dot an op carries, if any (freshness oracle of C07)
+    fn op_dot(_op: &Self::Op) -> Option<String> {
+        None
+    }
 }
 
 pub trait Runner {
@@ -49,6 +53,8 @@ pub struct Machine<T: Crdt> {
     reps: Vec<T::S>,
     know: Vec<BTreeSet<String>>,
     ops: BTreeMap<String, T::Op>,
+    /// op names in definition order (generation order is a causal-safe delivery order)
+    order: Vec<String>,
     snaps: BTreeMap<String, (T::S, BTreeSet<String>)>,
     /// replicas that executed reset_remove (or merged from one): "forgetting" is not a knowledge-preserving
     /// step, so the equal-knowledge oracle does not apply to them
@@ -62,6 +68,7 @@ impl<T: Crdt> Machine<T> {
             reps: (0..n).map(|_| T::init()).collect(),
             know: (0..n).map(|_| BTreeSet::new()).collect(),
             ops: BTreeMap::new(),
+            order: vec![],
             snaps: BTreeMap::new(),
             forgot: vec![false; n],
             snap_forgot: BTreeMap::new(),
@@ -87,11 +94,24 @@ impl<T: Crdt> Machine<T> {
                 match T::gen(&self.reps[r], actor, args) {
                     None => Some("nogen".into()),
                     Some(op) => {
-                        self.ops.insert(name.to_string(), op.clone());
+                        // freshness oracle: a generated dot must not be carried by any earlier op
+                        let fresh = match T::op_dot(&op) {
+                            Some(d) => {
+                                if self.ops.iter().any(|(n, o)| n != name && T::op_dot(o).as_deref() == Some(d.as_str())) {
+                                    " fresh=FAIL"
+                                } else {
+                                    " fresh=ok"
+                                }
+                            }
+                            None => "",
+                        };
+                        if self.ops.insert(name.to_string(), op.clone()).is_none() {
+                            self.order.push(name.to_string());
+                        }
                         let shown = T::show_op(&op);
                         T::apply(&mut self.reps[r], op);
                         self.know[r].insert(name.to_string());
-                        Some(format!("op={} {}", shown, T::obs(&self.reps[r])))
+                        Some(format!("op={}{} {}", shown, fresh, T::obs(&self.reps[r])))
                     }
                 }
             }
@@ -101,7 +121,9 @@ impl<T: Crdt> Machine<T> {
                     None => Some("badop".into()),
                     Some(op) => {
                         let shown = T::show_op(&op);
-                        self.ops.insert(name.to_string(), op);
+                        if self.ops.insert(name.to_string(), op).is_none() {
+                            self.order.push(name.to_string());
+                        }
                         Some(format!("op={}", shown))
                     }
                 }
@@ -255,18 +277,99 @@ impl<T: Crdt> Machine<T> {
                     },
                 }
             }
+            // merge laws on the implementation (C02): commutativity, associativity, idempotence on three replica states
+            "ML" => {
+                let a = self.reps[self.rep(toks.get(1)?)?].clone();
+                let b = self.reps[self.rep(toks.get(2)?)?].clone();
+                let c = self.reps[self.rep(toks.get(3)?)?].clone();
+                let mg = |x: &T::S, y: &T::S| -> Option<T::S> {
+                    let mut z = x.clone();
+                    T::merge(&mut z, y.clone())?;
+                    Some(z)
+                };
+                let ab = mg(&a, &b)?;
+                let ba = mg(&b, &a)?;
+                let ab_c = mg(&ab, &c)?;
+                let a_bc = mg(&a, &mg(&b, &c)?)?;
+                let aa = mg(&a, &a)?;
+                let same = |x: &T::S, y: &T::S| T::obs(x) == T::obs(y) && T::eq(x, y).unwrap_or(true);
+                let f = |b: bool| if b { "ok" } else { "FAIL" };
+                Some(format!("comm={} assoc={} idem={}", f(same(&ab, &ba)), f(same(&ab_c, &a_bc)), f(same(&aa, &a))))
+            }
+            // merge versus op delivery (C03): merge(r, r2) against a copy of r that is delivered what r2 knows
+            "MU" => {
+                let r = self.rep(toks.get(1)?)?;
+                let r2 = self.rep(toks.get(2)?)?;
+                if self.forgot[r] || self.forgot[r2] {
+                    return Some("mu=na".into());
+                }
+                let mut merged = self.reps[r].clone();
+                T::merge(&mut merged, self.reps[r2].clone())?;
+                let mut delivered = self.reps[r].clone();
+                for name in self.order.iter() {
+                    if self.know[r2].contains(name) && !self.know[r].contains(name) {
+                        T::apply(&mut delivered, self.ops[name].clone());
+                    }
+                }
+                let same = T::obs(&merged) == T::obs(&delivered) && T::eq(&merged, &delivered).unwrap_or(true);
+                Some(format!("mu={}", if same { "ok" } else { "FAIL" }))
+            }
+            // absorption (C09): re-apply every known op, merge own copy and every snapshot whose knowledge is known
+            "AB" => {
+                let r = self.rep(toks.get(1)?)?;
+                if self.forgot[r] {
+                    return Some("absorb=na".into());
+                }
+                let before = T::obs(&self.reps[r]);
+                let mut s = self.reps[r].clone();
+                let mut n = 0;
+                for name in self.order.iter() {
+                    if self.know[r].contains(name) {
+                        T::apply(&mut s, self.ops[name].clone());
+                        n += 1;
+                        if T::obs(&s) != before {
+                            return Some(format!("absorb=FAIL:dup:{}", name));
+                        }
+                    }
+                }
+                let own = s.clone();
+                if T::merge(&mut s, own).is_some() {
+                    if T::obs(&s) != before {
+                        return Some("absorb=FAIL:self".into());
+                    }
+                    for (sn, (st, k)) in self.snaps.iter() {
+                        if k.is_subset(&self.know[r]) && !self.snap_forgot.get(sn).copied().unwrap_or(false) {
+                            T::merge(&mut s, st.clone());
+                            n += 1;
+                            if T::obs(&s) != before {
+                                return Some(format!("absorb=FAIL:snap:{}", sn));
+                            }
+                        }
+                    }
+                    for i in 0..self.reps.len() {
+                        if i != r && self.know[i].is_subset(&self.know[r]) && !self.forgot[i] {
+                            T::merge(&mut s, self.reps[i].clone());
+                            n += 1;
+                            if T::obs(&s) != before {
+                                return Some(format!("absorb=FAIL:peer:{}", i));
+                            }
+                        }
+                    }
+                }
+                Some(format!("absorb=ok n={}", n))
+            }
             // end of case: convergence oracle on the implementation – every pair of replicas /
             // snapshots with the same knowledge set must show the same observation
             "E" => {
-                let mut all: Vec<(String, String, &BTreeSet<String>)> = vec![];
+                let mut all: Vec<(String, String, &BTreeSet<String>, &T::S)> = vec![];
                 for (i, s) in self.reps.iter().enumerate() {
                     if !self.forgot[i] {
-                        all.push((format!("r{i}"), T::obs(s), &self.know[i]));
+                        all.push((format!("r{i}"), T::obs(s), &self.know[i], s));
                     }
                 }
                 for (n, (s, k)) in self.snaps.iter() {
                     if !self.snap_forgot.get(n).copied().unwrap_or(false) {
-                        all.push((format!("s{n}"), T::obs(s), k));
+                        all.push((format!("s{n}"), T::obs(s), k, s));
                     }
                 }
                 let mut pairs = 0;
@@ -276,6 +379,10 @@ impl<T: Crdt> Machine<T> {
                             pairs += 1;
                             if all[i].1 != all[j].1 {
                                 return Some(format!("conv=FAIL:{}:{}", all[i].0, all[j].0));
+                            }
+                            // C20: equal knowledge must compare equal with `==`
+                            if T::eq(all[i].3, all[j].3) == Some(false) {
+                                return Some(format!("conv=FAIL:eq:{}:{}", all[i].0, all[j].0));
                             }
                         }
                     }
